@@ -84,6 +84,12 @@ def cases(tier, seed, phase):
     rng.shuffle(hop)
     for k, c in enumerate(hop[:200 if tier == 'quick' else 3000]):
         yield {'kind': 'proxyhop', 'edge': 'smtp' if k % 2 else 'wsgi', 'script': c}
+    # HttpRelay (sending host) -> pywsgi WsgiEdge -> Queue over a store whose k-th write fails (receiving host)
+    for n in (1, 2, 3):
+        for ws in itertools.product(['ok', 'qe', 'qe452', 'qe552', 'exc'], repeat=n):
+            if tier == 'quick' and n == 3 and sum(w != 'ok' for w in ws) > 1:
+                continue
+            yield {'kind': 'httphop', 'edge': 'wsgi-loopback', 'writes': list(ws)}
     for j in range(30 if tier == 'quick' else 600):
         rng = rng_for(seed, 'c02c', j)
         yield {'kind': 'concurrent', 'edge': 'smtp', 'nclients': rng.choice([2, 2, 3]), 'ndomains': rng.choice([1, 2, 3]),
@@ -750,6 +756,52 @@ def run_proxyhop(case, model):
     return CaseResult(mismatch, hits, key, ['proxyhop', case['edge'], 'lmtp' if sc['lmtp'] else 'smtp-next-hop', 'ack' if ack else 'nack'] + (['wsgi-app-raised'] if out.get('raised') else []))
 
 
+def run_httphop(case, model):
+    """The hop between two hosts that speak HTTP: a real HttpRelay delivers to a real WsgiEdge (pywsgi on loopback) in front of a real
+    Queue + RecipientDomainSplit over a store whose k-th write fails. What the relay reports vs Ingress.httpHop, and the property
+    across the hop: reported delivered only with every envelope in the receiving storage."""
+    import gevent
+    from slimta.edge.wsgi import WsgiEdge
+    from slimta.relay.http import HttpRelay
+    from slimta.envelope import Envelope
+    from harness.props import c11
+    try:
+        gevent.get_hub().exception_stream = None
+    except Exception:
+        pass
+    state = {}
+    qcase = {'kind': 'queue', 'writes': case['writes'], 'slow': None}
+    queue = make_queue(qcase, state)
+    edge = WsgiEdge(queue, hostname='edge.example')
+    edge.server = edge.build_server(('127.0.0.1', 0))
+    edge.server.log = None
+    edge.server.start()
+    port = edge.server.server_port
+    relay = HttpRelay('http://127.0.0.1:%d/' % port, timeout=3.0, ehlo_as='relay.example')
+    rcpts = recipients(qcase)
+    env = Envelope('sender@example.com', list(rcpts))
+    env.parse(b'Subject: c02 http hop\r\n\r\nbody\r\n')
+    try:
+        res = c11.run_attempt(relay, env, watchdog=6.0)
+    finally:
+        try:
+            edge.server.stop()
+            for c in list(relay.pool):
+                c.kill(block=False)
+        except Exception:
+            pass
+    stored = snapshot_store(state) or []
+    m = model.ask('ingress httphop %d %s' % (len(rcpts), ','.join(case['writes'])))
+    mismatch = None if m == res else {'op': 'ingress httphop', 'impl': res, 'model': m, 'writes': case['writes']}
+    hits = []
+    have = set(r for e in stored for r in e)
+    if res.startswith('table:') and 'ok' in res and not set(rcpts) <= have:
+        hits.append(hit('c02.ack-without-custody.http-hop', 'the HTTP relay reports the message delivered although an envelope of it is not in the '
+                        'receiving host\'s storage', observed={'relay': res, 'stored': stored, 'writes': case['writes']}, expected=rcpts))
+    key = ('httphop', tuple(case['writes']))
+    return CaseResult(mismatch, hits, key, ['httphop', 'n=%d' % len(rcpts), res.split(':')[0] + (':' + res.split(':')[1] if res.startswith('raised') else '')])
+
+
 def run_case(case, model):
     if case.get('kind') == 'wsgi-gate':
         return run_wsgi_gate(case, model)
@@ -759,6 +811,8 @@ def run_case(case, model):
         return run_ingress(case, model)
     if case.get('kind') == 'proxyhop':
         return run_proxyhop(case, model)
+    if case.get('kind') == 'httphop':
+        return run_httphop(case, model)
     import gevent
     try:
         gevent.get_hub().exception_stream = None
